@@ -38,7 +38,7 @@ func init() {
 			"a commit whose model verdict is 'valid' but which carries extra malformed entries may be refused by the implementation; only honest MakeCommit output must be accepted",
 			"timestamps are whole milliseconds after 1970 (the wire codec and the canonical time format are not exercised outside that)",
 		},
-		QuickRuns: 2400, ThoroughRuns: 60000, QuickBudget: 50 * time.Second, ThoroughBudget: 15 * time.Minute,
+		QuickRuns: 6000, ThoroughRuns: 300000, QuickBudget: 50 * time.Second, ThoroughBudget: 15 * time.Minute,
 		Run: run,
 	})
 }
